@@ -494,6 +494,13 @@ func composeForm(t *rapid.T, s M) M {
 			b["required"] = req
 		}
 	}
+	switch rapid.IntRange(0, 3).Draw(t, "composekw") {
+	case 0:
+		// two different composition keywords on the same schema object
+		return M{"type": "object", "allOf": []any{a}, "anyOf": []any{b}}
+	case 1:
+		return M{"type": "object", "allOf": []any{a}, "oneOf": []any{b}}
+	}
 	return M{"type": "object", "allOf": []any{a, b}}
 }
 
